@@ -25,7 +25,7 @@ def run(ctx):
         return s, len(pre), len(pre) + len(opener)
     for a in pool:
         ctxs = [('', '$(', ')', ''), ('x', '$(', ')', 'y'), ('c "', '$(', ')', '"'), ('v=', '$(', ')', ''), ('c >', '$(', ')', ''), ('c ', '<(', ')', ''),
-                ('c ', '>(', ')', ' d'), ('c $(d ', '$(', ')', ')'), ('c "$(d "', '$(', ')', '")"'), ('e\nc ', '$(', ')', ''), ('c $(d $(e ', '$(', ')', '))')]
+                ('c ', '>(', ')', ' d'), ('c pre', '<(', ')', ''), ('c --x=', '>(', ')', 'y'), ('v=', '<(', ')', ''), ('c a.b', '$(', ')', '/d'), ('c $(d ', '$(', ')', ')'), ('c "$(d "', '$(', ')', '")"'), ('e\nc ', '$(', ')', ''), ('c $(d $(e ', '$(', ')', '))')]
         if '`' not in a and '\\' not in a: ctxs += [('c ', '`', '`', ''), ('c "', '`', '`', '"')]
         if quick: ctxs = rng.sample(ctxs, 4)
         for pre, op, cl, post in ctxs:
